@@ -1,5 +1,6 @@
 import EchoModel.Wire
 import EchoModel.C06Hooks
+import EchoModel.C06Nest
 /-!
 # C06 — response bookkeeping (response.go, context.go helpers)
 
@@ -476,6 +477,8 @@ def encReq (x : St × List Snap) : List String :=
 def runLine (line : String) : String :=
   -- programs with hooks that register hooks go to the small model of EchoModel/C06Hooks.lean
   if line.startsWith "H " then C06H.runLine (line.drop 2).toString else
+  -- a Response whose writer is itself a Response (echo mounted inside echo): EchoModel/C06Nest.lean
+  if line.startsWith "N " then C06N.runLine (line.drop 2).toString else
   match parseLine (do let p ← nat; let cap ← nat; let fl ← bool; let strict ← bool
                       let progs ← list (list pOp); pure (p, cap, fl, strict, progs)) line with
   | none => "bad-op"
